@@ -1,4 +1,110 @@
-import ShmVerif.Model.Proto
+import ShmVerif.Proof.Mux
+/-!
+  C10 — stream close is final, propagates to the peer and is reported exactly once (synchronous mode).
+
+  PARTIAL proof on the message-level protocol model `Mux` (tied to the real sessions through the shared two-session
+  harness).  Proved: a local Close makes the stream closed and unregistered whatever its state was; later flushes fail with
+  the closed-stream outcome and touch no channel; the close notification is issued exactly when the stream was still open
+  (repeated Close and Close after a peer close issue nothing more); delivering the notification half-closes the peer's
+  stream, after which the peer cannot send; states only move forward.
+  NOT covered here: callback mode (Close from inside OnData, OnLocalClose/OnRemoteClose counting) — see C20 and DESIGN §6 F6.
+-/
 namespace Props.C10
-theorem placeholder : True := trivial
+open Mux List
+
+theorem filter_ne_not_contains (l : List Nat) (i : Nat) : (l.filter (· ≠ i)).contains i = false := by
+  induction l with
+  | nil => rfl
+  | cons a r ih =>
+    simp only [filter_cons]
+    by_cases h : a = i
+    · simp [h]
+    · simp [h]; exact fun e => h e.symm
+
+/-- After a local Close the stream is closed, holds no buffered message any more and no longer counts as active. -/
+theorem c10_close_final (s : Sys) (x : Side) (i : Nat) (st : MStream) (h : (s.me x).find i = some st)
+    (hne : st.state ≠ .closed) :
+    ∃ st', ((closeStream s x i).1.me x).find i = some st' ∧ st'.state = .closed ∧ st'.buffered = [] ∧
+      ((closeStream s x i).1.me x).registered i = false := by
+  have hidf : ∀ y : MStream, ({ y with state := St.closed, buffered := [], fbPending := false } : MStream).id = y.id := fun _ => rfl
+  have hfind' : ∀ (e : MEnd), e = { (s.me x).upd i (fun y => { y with state := St.closed, buffered := [], fbPending := false }) with
+        table := ((s.me x).upd i (fun y => { y with state := St.closed, buffered := [], fbPending := false })).table.filter (· ≠ i) } →
+      e.find i = some { st with state := .closed, buffered := [], fbPending := false } ∧ e.registered i = false := by
+    intro e he
+    subst he
+    constructor
+    · have := find_upd (s.me x) i i (fun y => { y with state := St.closed, buffered := [], fbPending := false }) hidf
+      simp only [if_true, h, Option.map_some] at this
+      exact this
+    · exact filter_ne_not_contains _ i
+  unfold closeStream
+  rw [h]
+  simp only [hne, if_false]
+  split
+  · split
+    · obtain ⟨a, b⟩ := hfind' _ rfl
+      exact ⟨_, by simpa [Sys.setCh, Sys.setMe, Sys.me] using a, rfl, rfl, by simpa [Sys.setCh, Sys.setMe, Sys.me] using b⟩
+    · obtain ⟨a, b⟩ := hfind' _ rfl
+      exact ⟨_, by simpa [Sys.setCh, Sys.setMe, Sys.me] using a, rfl, rfl, by simpa [Sys.setCh, Sys.setMe, Sys.me] using b⟩
+  · obtain ⟨a, b⟩ := hfind' _ rfl
+    exact ⟨_, by simpa [Sys.setMe, Sys.me] using a, rfl, rfl, by simpa [Sys.setMe, Sys.me] using b⟩
+
+/-- Every later Flush on a stream that is not open fails with the closed-stream outcome, sends nothing, and the message
+    it carried is released at once. -/
+theorem c10_flush_after_close (s : Sys) (x : Side) (i : Nat) (heap : Bool) (st : MStream)
+    (h : (s.me x).find i = some st) (hst : st.state ≠ .opened) :
+    (flush s x i heap).2 = .closed ∧ (flush s x i heap).1.ch = s.ch ∧ (flush s x i heap).1.sent = s.sent ∧
+    (flush s x i heap).1.retired = s.retired ++ [s.fresh] := by
+  unfold flush
+  rw [h]
+  simp only [hst, ne_eq, not_false_eq_true, if_true]
+  exact ⟨trivial, trivial, trivial, trivial⟩
+
+/-- The close notification is issued exactly when the stream was still open: a repeated Close, or a Close after the peer's
+    close was received, announces nothing more. -/
+theorem c10_notifies_exactly_once (s : Sys) (x : Side) (i : Nat) (st : MStream) (h : (s.me x).find i = some st) :
+    (closeStream s x i).1.closeSent = if st.state = .opened then s.closeSent ++ [(x, i)] else s.closeSent := by
+  unfold closeStream
+  rw [h]
+  simp only
+  by_cases hc : st.state = .closed
+  · have : ¬ st.state = .opened := by rw [hc]; simp
+    simp [hc, this]
+  · simp only [hc, if_false]
+    by_cases ho : st.state = .opened
+    · simp only [ho, if_true]
+      split <;> simp [Sys.setCh, Sys.setMe]
+    · simp [ho, Sys.setMe]
+
+/-- Delivering a close notification: the peer's registered stream leaves the open state (and stays where it was if it had
+    left it already); afterwards the peer cannot send on it any more. -/
+theorem c10_peer_half_closes (s : Sys) (y : Side) (i : Nat) (st : MStream) (hreg : (s.me y).registered i = true)
+    (h : (s.me y).find i = some st) :
+    ∃ st', ((closeNote s y i).me y).find i = some st' ∧ st'.state ≠ .opened ∧
+      (flush (closeNote s y i) y i false).2 = .closed := by
+  have hst' : ((closeNote s y i).me y).find i = some (halfClose st) := by
+    unfold closeNote
+    rw [if_pos hreg, setMe_me_same, find_upd _ _ _ _ halfClose_id]
+    simp [h]
+  have hne : (halfClose st).state ≠ .opened := by
+    unfold halfClose; split <;> simp_all
+  exact ⟨_, hst', hne, (c10_flush_after_close _ y i false _ hst' hne).1⟩
+
+/-- States only move forward: open → half-closed → closed, open → closed. -/
+def rank : St → Nat | .opened => 0 | .half => 1 | .closed => 2
+
+theorem c10_monotone_halfClose (st : MStream) : rank st.state ≤ rank (halfClose st).state := by
+  unfold halfClose; split
+  · rename_i h; simp [h, rank]
+  · exact Nat.le_refl _
+
+theorem c10_monotone_close (st : MStream) : rank st.state ≤ rank St.closed := by
+  cases st.state <;> simp [rank]
+
+-- non-vacuity: Close on both ends of one stream; each end announces once; both end up closed and inactive
+example :
+    let s := run { qcap := 4 } [.open_ .a, .flush .a 2 false, .deliver .b, .close .a 2, .close .a 2, .deliver .b, .close .b 2]
+    s.closeSent = [(.a, 2)] ∧ (s.ends .a).table = [] ∧ (s.ends .b).table = [] ∧
+    ((s.ends .b).streams.map (·.state)) = [.closed] := by decide
+
 end Props.C10
